@@ -3009,7 +3009,15 @@ impl KotoVm {
                     Ok(false)
                 }
             }
-            unexpected => unexpected_type("a value that supports '.' access", unexpected),
+            unexpected => {
+                if error_if_not_found {
+                    unexpected_type("a value that supports '.' access", unexpected)
+                } else {
+                    // e.g. a map pattern in a match arm applied to Null or a Bool:
+                    // the key isn't available, so the access fails without throwing.
+                    Ok(false)
+                }
+            }
         }
     }
 
